@@ -24,8 +24,8 @@ TRACK = ["skfem.quadrature:get_quadrature", "skfem.quadrature:get_quadrature_tet
          "skfem.quadrature:get_quadrature_tri", "skfem.quadrature:get_quadrature_line",
          "skfem.quadrature:get_quadrature_point"]
 REQUIRED_MONITORS = ["moments-exact", "weights-sum-to-measure", "nodes-in-closed-cell",
-                     "unsupported-order-raises", "spellings-agree"]
-REQUIRED_REACH = ["raise-path:tri", "raise-path:tet"]
+                     "unsupported-order-raises", "spellings-agree", "rule-after-caller-modified-earlier-result"]
+REQUIRED_REACH = ["raise-path:tri", "raise-path:tet", "earlier-result-modified-in-place"]
 
 CELLS = {
     # name: (refdom attr, dim, kind, measure)
@@ -181,6 +181,25 @@ def sweep_cell(cell):
                 except Exception as e:
                     same = False
                 ctx.check("spellings-agree", same, mech=f"spelling:{sname}", cell=cell, order=n, spelling=sname)
+            # "the returned rule" of every request: a caller that scaled the arrays it got (W *= |det|, X -= ...)
+            # in place must not change what the next request returns
+            try:
+                Xm, Wm = quadrature.get_quadrature(refdom, n)
+                wrote = False
+                for arr in (Xm, Wm):
+                    if isinstance(arr, np.ndarray) and arr.flags.writeable and arr.size:
+                        arr *= 3.0
+                        arr += 0.125
+                        wrote = True
+                X3, W3 = quadrature.get_quadrature(refdom, n)
+                ctx.check("rule-after-caller-modified-earlier-result",
+                          np.array_equal(np.asarray(X3, dtype=float), X) and np.array_equal(np.asarray(W3, dtype=float), W),
+                          mech=f"returned-arrays-shared-between-requests:{cell}", cell=cell, order=n)
+                if wrote:
+                    ctx.reached("earlier-result-modified-in-place")
+            except Exception as e:
+                ctx.check("rule-after-caller-modified-earlier-result", False, mech=f"second-request-raises:{cell}", cell=cell,
+                          order=n, error=repr(e))
             n += 1
         ctx.notes[f"accepted_orders:{cell}"] = [accepted[0], accepted[-1], len(accepted)] if accepted else []
         if cell in ("line", "quad", "hex", "point"):
